@@ -271,6 +271,10 @@ theorem tie_reduce (rw : RW) (now : Nat) (hs : 1 ≤ rw.size) :
     simp only [hpos, this, if_false]
     rfl
 
+/-- the nop shedder hands out a nop promise and no error; the disabled path of `NewAdaptiveShedder` returns it. -/
+theorem tie_nopAllow : nopAllowReturns = "nopPromise{}" ∧ nopAllowError = "nil" ∧ newWhenDisabled = "newNopShedder()" :=
+  ⟨rfl, rfl, rfl⟩
+
 /-! ### statement skeletons -/
 
 /-- `NewAdaptiveShedder`: disabled → nop shedder; otherwise options, then the struct with two rolling windows. -/
